@@ -287,9 +287,9 @@ def fetchCore (app : App) (cycle : Int) (fu : FetchUnit) (mmu : Model.Mmu.Mmu) (
     if bus.outLength < 0 then pure (fu, mmu, bus)
     else coFetchLoop app cycle bus.outLength.toNat fu mmu bus
 
-/-- `fetchUnit.reset(pc, cleanPending)` -/
+/-- `fetchUnit.reset(pc, cleanPending)`: since /repo commit 52aa070 it also clears `complete` (R60-defect-1) -/
 def FetchUnit.reset (fu : FetchUnit) (pc : Word) (clean : Bool) : FetchUnit :=
-  { fu with co := .none, pc := pc, toCleanPending := clean }
+  { fu with co := .none, complete := false, pc := pc, toCleanPending := clean }
 
 /-- `fetchUnit.flush(pc)` -/
 def FetchUnit.flush (fu : FetchUnit) (pc : Word) : FetchUnit :=
